@@ -2,6 +2,7 @@ package graphicsstate
 
 import (
 	"fmt"
+	"math"
 
 	"github.com/tsawler/tabula/model"
 )
@@ -300,12 +301,14 @@ func (gs *GraphicsState) GetFontSize() float64 {
 func (gs *GraphicsState) GetEffectiveFontSize() float64 {
 	baseFontSize := gs.Text.FontSize
 
-	// The text matrix is [a b c d e f]
-	// For vertical scaling (typical font size), we use element d (index 3)
-	// For horizontal scaling, we use element a (index 0)
+	// The text matrix is [a b c d e f]. The unit vector along the baseline is
+	// mapped to (a, b) and the unit vector perpendicular to it to (c, d): their
+	// lengths are the horizontal and the vertical scale, whatever the rotation
+	// (for an unrotated matrix they are |a| and |d|).
 	// We take the maximum to handle both cases
-	verticalScale := abs(gs.Text.TextMatrix[3])   // d component
-	horizontalScale := abs(gs.Text.TextMatrix[0]) // a component
+	tm := gs.Text.TextMatrix
+	verticalScale := math.Hypot(tm[2], tm[3])
+	horizontalScale := math.Hypot(tm[0], tm[1])
 
 	// Use the larger of the two scales
 	scale := verticalScale
